@@ -506,6 +506,18 @@ Proof.
   rewrite supported_is_conjunction, semantic_is_conjunction by assumption. rewrite Hm, Hc. reflexivity.
 Qed.
 
+(* the value lists the report prints (data types, operator types) are the sets the predicates read *)
+Theorem report_values_are_enforced_values : forallb value_list_ok value_lists = true /\ value_lists <> [].
+Proof. split; [vm_compute; reflexivity | discriminate]. Qed.
+Theorem report_values_are_enforced_values_each : forall c prefix printed enforced,
+  In (c, prefix, printed, enforced) value_lists ->
+  doc_of c = prefix ++ join_comma printed /\ dedup_adjacent printed = enforced.
+Proof.
+  intros c prefix printed enforced Hin. destruct report_values_are_enforced_values as [H _].
+  rewrite forallb_forall in H. specialize (H _ Hin). unfold value_list_ok in H.
+  apply andb_true_iff in H. destruct H as [H1 H2]. split; [apply list_eqb_eq | apply list_list_eqb_eq]; assumption.
+Qed.
+
 (* ------------------------------------------------------------------------------------------------------------ *)
 (* the hypotheses are satisfiable / the statements are not vacuous                                               *)
 Example ex_stride_range : constraint_stride_range K_stride_range_1 K_stride_range_0 = true /\
